@@ -173,6 +173,20 @@ func runC08(r *core.Run) {
 								c08Reduce(r, d, shape, lay, vs, op.name, op.f, axes, api, arr)
 							}
 						}
+						// axis lists with an axis given twice (they denote the set of their axes; numbers that are no axis of the operand
+						// have no defined result and are not judged: the library reads some of them as 'all axes' and relies on that itself, in Norm)
+						if (lay == "C" || lay == "T") && vs == "id" {
+							bad := [][]int{{0, 0}, {rank - 1, rank - 1}}
+							if rank >= 2 {
+								bad = append(bad, []int{0, rank - 1, 0}, []int{rank - 1, 0, rank - 1}, []int{1, 1})
+							}
+							for _, axes := range bad {
+								c08Reduce(r, d, shape, lay, vs, op.name, op.f, axes, "method", arr)
+								if op.name == "Sum" {
+									c08Reduce(r, d, shape, lay, vs, op.name, op.f, axes, "func", arr)
+								}
+							}
+						}
 						// every ORDER of every axis subset (the axis list is sorted internally): contiguous operands, one value set
 						if lay == "C" && vs == "id" && rank >= 3 {
 							for _, sub := range subsets(rank) {
@@ -303,7 +317,20 @@ func c08Reduce(r *core.Run, d ref.DT, shape []int, lay, vs, op string, f func(a,
 		if res == nil {
 			return core.F("wrong-type", "nil", "nil result")
 		}
-		want := reduceModel(arr, axes, f)
+		// an axis list denotes the SET of its axes: one that is given twice is refused or counts once; one that is not an
+		// axis of the operand has no result
+		var set []int
+		seen := map[int]bool{}
+		for _, ax := range axes {
+			if ax < 0 || ax >= len(shape) {
+				return core.F("accepted-invalid", "axis", "%s along %v of %s was computed (shape %v): %d is not an axis", op, axes, shapeStr(shape), res.Shape(), ax)
+			}
+			if !seen[ax] {
+				seen[ax] = true
+				set = append(set, ax)
+			}
+		}
+		want := reduceModel(arr, set, f)
 		return cmpArr(res, want, fmt.Sprintf("%s along %v of %s layout %s", op, axes, shapeStr(shape), lay), false)
 	})
 }
